@@ -8,9 +8,9 @@ mkdir -p $W/verif
 git -C /repo worktree add -q --detach $W/repo HEAD || exit 2
 cp /verif/known_functions.txt /verif/known_findings.json $W/verif/
 trap 'git -C /repo worktree remove --force $W/repo; git -C /repo worktree prune; rm -rf $W' EXIT
-ids="$@"; [ -z "$ids" ] && ids=$(ls /verif/benign | grep '^C')
+ids="$@"; [ -z "$ids" ] && ids=$(ls ${BEN_DIR:-/verif/benign} | grep "^C")
 for L in $ids; do
-  D=/verif/benign/$L
+  D=${BEN_DIR:-/verif/benign}/$L
   if ! git -C $W/repo apply --check $D/patch.diff 2>/dev/null; then echo "$L does-not-apply"; continue; fi
   git -C $W/repo apply $D/patch.diff
   rm -f $W/alarm.txt
